@@ -1,5 +1,6 @@
 import PyomaVerif.Codec
 import PyomaVerif.Model.Mpe
+import PyomaVerif.Model.MpePy
 import PyomaVerif.Ops.C10
 open Lean PV PV.Codec PV.Ops.C10
 namespace PV.Ops.C11
@@ -9,6 +10,26 @@ def orderOfJson (j : Json) : Except String MpeOrder :=
   | .str "find_min" => pure .findMin
   | .arr _ => do pure (.list (← listOf natOfJson j))
   | _ => do pure (.int (← natOfJson j))
+
+/-- the Python object passed as `order`: `"find_min"`, an integer, `true`/`false`, a list of integers; any other
+    JSON value (`null`, another string, an object such as `{"other": "int64"}`, a non-integer number) is `other`. -/
+def pyOrderOfJson (j : Json) : Except String PyOrder :=
+  match j with
+  | .str "find_min" => pure .findMin
+  | .bool b => pure (.bool b)
+  | .arr _ => do pure (.list (← listOf intOfJson j))
+  | .num _ => match j.getInt? with
+    | .ok i => pure (.int i)
+    | .error _ => pure .other
+  | _ => pure .other
+
+def shapeToJson (s : List Nat) : Json := Json.arr (s.map fun (n : Nat) => Json.num n).toArray
+
+def shapesToJson (s : MpeShapes) : Json :=
+  Json.mkObj ([("fn", shapeToJson s.fn), ("xi", shapeToJson s.xi), ("phi", shapeToJson s.phi)] ++
+    match s.cov with
+    | some (a, b, c) => [("fn_cov", shapeToJson a), ("xi_cov", shapeToJson b), ("phi_cov", shapeToJson c)]
+    | none => [])
 
 def orderOutToJson : OrderOut → Json
   | .none => Json.null
@@ -30,10 +51,11 @@ def covOfJson (j : Json) : Except String (Option MpeCov) :=
     let phi ← ten3Of oratOfJson (← field j "phi") d
     pure (some ⟨fn, xi, phi⟩)
 
-def outToJson (r : Except String MpeOut) : Json :=
+def outToJson (r : Except String MpeOut) (shapes : MpeOut → MpeShapes) : Json :=
   match r with
   | .error e => Json.mkObj [("exc", Json.str e)]
   | .ok out => Json.mkObj [
+      ("shapes", shapesToJson (shapes out)),
       ("fn", listToJson oratToJson out.acc.fn),
       ("xi", listToJson oratToJson out.acc.xi),
       ("phi", listToJson (listToJson ocqToJson) out.acc.phi),
@@ -49,11 +71,11 @@ def ssiMpeOp (j : Json) : Except String Json := do
   let Xi ← omatOfJson (← field j "Xi")
   let d ← natOfJson (← field j "d")
   let Phi ← ten3Of ocqOfJson (← field j "Phi") d
-  let order ← orderOfJson (← field j "order")
+  let order ← pyOrderOfJson (← field j "order")
   let Lab ← labOfJson (fieldD j "Lab" Json.null)
   let rtol ← ratOfJson (← field j "rtol")
   let cov ← covOfJson (fieldD j "cov" Json.null)
-  pure (outToJson (ssiMpe freq Fn Xi Phi order Lab rtol cov))
+  pure (outToJson (ssiMpePy freq Fn Xi Phi order Lab rtol cov) (ssiShapes order cov.isSome))
 
 /-- `{"op":"plscf_mpe","freq","Fn","Xi","Phi","d","order","Lab","deltaf","rtol"}` -/
 def plscfMpeOp (j : Json) : Except String Json := do
@@ -62,11 +84,11 @@ def plscfMpeOp (j : Json) : Except String Json := do
   let Xi ← omatOfJson (← field j "Xi")
   let d ← natOfJson (← field j "d")
   let Phi ← ten3Of ocqOfJson (← field j "Phi") d
-  let order ← orderOfJson (← field j "order")
+  let order ← pyOrderOfJson (← field j "order")
   let Lab ← labOfJson (fieldD j "Lab" Json.null)
   let deltaf ← ratOfJson (← field j "deltaf")
   let rtol ← ratOfJson (← field j "rtol")
-  pure (outToJson (plscfMpe freq Fn Xi Phi order Lab deltaf rtol))
+  pure (outToJson (plscfMpePy freq Fn Xi Phi order Lab deltaf rtol) plscfShapes)
 
 def ops : List (String × (Json → Except String Json)) :=
   [("ssi_mpe", ssiMpeOp), ("plscf_mpe", plscfMpeOp)]
